@@ -4,13 +4,14 @@ from harness.ninjaref import (DecodeError, parse_manifest, evaluate, sh_split, b
 
 PROPERTY = 'C03'
 LEVEL = 'other'
-INSTRUMENT = dict(prefixes=('mesonbuild.',), exact=('mesonbuild', 'shlex'))
+INSTRUMENT = dict(prefixes=('mesonbuild.',), exact=('mesonbuild', 'shlex', 'argparse'))
 FILES = ['mesonbuild/backend/ninjabackend.py', 'mesonbuild/backend/backends.py', 'mesonbuild/utils/universal.py']
 ENCODED = ['ninjabackend.ninja_quote', 'quote_func -> mesonlib.quote_arg -> shlex.quote (stdlib, instrumented)', 'gcc_rsp_quote', 'cmd_quote',
            'NinjaCommandArg', 'NinjaRule.__init__/_quoter/write/_length_estimate/should_use_rspfile',
            'NinjaBuildElement.add_item/write/_should_use_rspfile/count_rule_references/check_outputs', 'NinjaBuild.add_rule/add_build/write',
            'Backend.escape_extra_args', 'mesonlib.join_args/split_args (shlex.split, instrumented)',
-           'Backend.as_meson_exe_cmdline / get_executable_serialisation (decision to serialise, --capture/--feed wrapping, digest-named pickle file; hashlib, pickle.dump and open are recorders)']
+           'Backend.as_meson_exe_cmdline / get_executable_serialisation (decision to serialise, --capture/--feed wrapping, digest-named pickle file; hashlib, pickle.dump and open are recorders)',
+           'scripts/meson_exe.run + buildparser (argparse.parse_known_args from the stdlib, instrumented; run_exe is a recorder)']
 EXPLANATION = ('Symbolic execution of the real manifest writer: argument strings are symbolic over ASCII 1..126 (every quote, $, #, ;, glob, backslash, newline, '
                'control character at once), rsp_threshold is a symbolic integer so both the command-line and the response-file branch are explored for every '
                'argument; the text written is decoded by reference implementations of the consumers (Ninja lexer + $-evaluation with rule/build scoping, POSIX sh word '
@@ -346,9 +347,51 @@ def ob_wrapper_modes(n):
             if mode == 0:
                 expect_eq(cmd, ['prog'] + A, 'plain command line'); cover('plain')
             else:
+                check('--' in cmd, 'the wrapper command line separates its own options from the user\'s argv with --')
+                if '--' not in cmd: return
                 i = cmd.index('--')
                 expect_eq(cmd[i + 1:], ['prog'] + A, 'arguments after -- of the internal exe wrapper')
                 check(('--capture' in cmd[:i]) == (mode == 1) and ('--feed' in cmd[:i]) == (mode == 2), 'capture / feed flags'); cover('internal-exe')
+    return h
+
+
+def run_meson_exe(argv):
+    """the real `meson --internal exe` front end (scripts/meson_exe.run: argparse.parse_known_args, '--' handling) with run_exe replaced by a recorder;
+    -> the ExecutableSerialisation it would run, or the string 'rejected'"""
+    from mesonbuild.scripts import meson_exe as MX
+    got = []
+    saved = MX.run_exe
+    MX.run_exe = lambda exe, extra_env=None: (got.append(exe), 0)[1]
+    try:
+        try:
+            MX.run(list(argv))
+        except SystemExit:
+            return 'rejected'
+    finally:
+        MX.run_exe = saved
+    return got[0] if got else 'rejected'
+
+
+def ob_wrapper_argv(lens, alphabet):
+    """capture / feed without serialisation: the wrapper command line is parsed again by `meson --internal exe`; the user's argv must come out of THAT
+    parser unchanged - in particular arguments that look like the wrapper's own options (--capture, --feed, --unpickle, -h, prefixes, --x=y)"""
+    def h():
+        be, BK = mk_backend_stub()
+        A = [sym_str(n, 'a%d' % i, alphabet=alphabet) for i, n in enumerate(lens)]
+        mode = 1 + choose(3, 'mode')
+        kw = [None, {'capture': 'out.txt'}, {'feed': 'in.txt'}, {'capture': 'out.txt', 'feed': 'in.txt'}][mode]
+        cmd, pk, hh = run_wrapper(be, BK, A, **kw)
+        if pk is not None:
+            cover('pickled'); return
+        check('exe' in cmd, 'capture / feed go through meson --internal exe')
+        if 'exe' not in cmd: return
+        tail = cmd[cmd.index('exe') + 1:]
+        exe = run_meson_exe(tail)
+        check(exe != 'rejected', 'the wrapper accepts the command line meson generated')
+        if exe == 'rejected': return
+        expect_eq(exe.cmd_args, ['prog'] + A, 'argv after the wrapper\'s own option parsing')
+        check(exe.capture == kw.get('capture') and exe.feed == kw.get('feed'), 'capture / feed files as specified')
+        cover('parsed')
     return h
 
 
@@ -377,6 +420,10 @@ def obligations(tier):
     for n in (1,) if q else (1, 2):
         out.append(Obligation('exe-wrapper-modes[%d]' % n, ob_wrapper_modes(n), dict(arg_lengths=[n, 1], modes='plain | capture | feed | workdir', alphabet='ASCII 1..126'),
                               labels=('pickled', 'plain', 'internal-exe'), max_paths=5000000))
+    WOPT = '-hcapturefdnikl=x '
+    for lens in ([2], [3], [2, 2]) if q else ([2], [3], [4], [2, 2], [3, 2]):
+        out.append(Obligation('exe-wrapper-argv%s' % lens, ob_wrapper_argv(lens, WOPT if max(lens) > 2 else '-hcfu=x'), dict(arg_lengths=lens, modes='capture | feed | both', alphabet=WOPT,
+                              argparse='stdlib, executed symbolically'), labels=('parsed',), optional_labels=('pickled',), max_paths=5000000))
     for lens in ([1], [2], [1, 1]) if q else ([1], [2], [3], [1, 1], [2, 2]):
         out.append(Obligation('join-split%s' % lens, ob_joinsplit(lens), dict(arg_lengths=lens), labels=('done',), max_paths=3000000))
     return out
